@@ -52,7 +52,9 @@ Proof. exact refuted_object_module. Qed.
 Theorem Refs_full_repaired : Refs_full true.
 Proof. exact repaired_full. Qed.
 
-(* a bare name: the innermost frame of the caller's stack that is not passed over (c; the frames pre in front of it and
+(* a bare name: the NEAREST frame whose module binds it decides.  c is the innermost frame of the caller's stack that is
+   not passed over (the frames pre in front of it are frames of the library, frames without a module name, or frames of
+   any module whose globals do not bind the name -- helper modules through which the reference is issued: passes; and
    the library's own chain -- for decode both of its chains: lib_ok -- are frames of the library or frames without a
    module name) binds the name in its globals
    and runs in module m, which the interpreter knows and which binds the name to o: every entry point answers o,
@@ -61,7 +63,7 @@ Theorem Refs_repaired_bare : forall (W : world) (L : lib) (h : list op) (e : ent
     (pre : list frame) (c : frame) (post : list frame) (s : string) (g : obj) (m : string) (d : table) (o : obj),
   match e with ECodecM | ECodecU | EDecodePre | ECodecPost => False | _ => True end ->
   is_ident s = true ->
-  lib_ok L e = true -> forallb (skipped (l_pkg L)) pre = true ->
+  lib_ok L e = true -> forallb (passes (l_pkg L) s) pre = true ->
   lookup s (f_globals c) = Some g -> f_gname c = Some m -> skipped (l_pkg L) c = false ->
   lookup m (w_modules W) = Some d -> lookup s d = Some o -> not_module o = true ->
   warm true W L h (OCall e (RStr s) (pre ++ c :: post)) = expect e s m o.
@@ -186,6 +188,13 @@ Example Refs_repaired_examples :
   warm true W0 L1 [call_b] (OCall EUnmarshal (RStr "mod_a.Node") [fb; fmain]) = ROk [cls 1 "mod_a"] /\
   warm true W0 L1 [call_b] (OCall EForwardref (RStr "Node") [fa; fb_local; fmain]) = RRef "Node" (Some "mod_a") (Ok (cls 1 "mod_a")).
 Proof. exact repaired_examples. Qed.
+
+Example Refs_repaired_helper_example :
+  warm true W0 L2 [OCall EUnmarshal (RStr "Node") [fh; fa; fmain]] (OCall EUnmarshal (RStr "Node") [fh; fh; fb; fa; fmain])
+  = ROk [cls 2 "mod_b"] /\
+  cold true W0 L2 (OCall EUnmarshal (RStr "Node") [fh; fa; fmain]) = ROk [cls 1 "mod_a"] /\
+  forallb (passes "typelib" "Node") [fh; fh] = true /\ skipped "typelib" fh = false.
+Proof. exact repaired_helper_example. Qed.
 
 Example Refs_repaired_mangled_example :
   cold true W0 L2 (OCall EUnmarshal (RStr "app.webapp.Model") [fc; fmain]) = ROk [cls 7 "app.webapp"] /\
